@@ -5,5 +5,5 @@ CONSTANTS
   DoTamper = TRUE
   DoEmit = FALSE
 SPECIFICATION Spec
-INVARIANTS TypeOK Correct LenDeclared WrongPwFails HmacCoversStream Layout Fresh
+INVARIANTS TypeOK Correct LenDeclared WrongPwFails HmacCoversStream Layout SegmentKeysDistinct Fresh
 CHECK_DEADLOCK FALSE
